@@ -138,7 +138,7 @@ func LongValue(r *rand.Rand) string {
 
 // val draws a placeholder / match-all value, occasionally a long one.
 func val(r *rand.Rand) string {
-	if r.Intn(60) == 0 {
+	if r.Intn(25) == 0 {
 		return LongValue(r)
 	}
 	return pick(r, Values)
